@@ -1,5 +1,9 @@
 (* Run/Exec_C20.v — executable entry point of the C20 correspondence check.
-   ops aes.encrypt, aes.decrypt, aes.roundtrip (encrypt then decrypt the result);
+   ops aes.encrypt, aes.decrypt, aes.encrypt_impl, aes.decrypt_impl (the public *_impl functions, which
+   `encrypt` / `decrypt` forward to and ECIES calls directly), aes.roundtrip (encrypt then decrypt the result);
+   the spec column is decisive for every input inside the property's quantifier (wrong sizes: ERR, so a panic is
+   a violation); "-" only for CTR encrypt/decrypt when the low 64 counter bits wrap (outside the claim), where
+   aes.roundtrip still demands the round trip;
    run op [mode; key; iv; data] = "<implementation model output>|<specification output>|<known-finding class or ->"
    implementation model = Model/AesApi.v (transcription of src/encryption/mod.rs and the crates it calls);
    specification        = the standard modes of Prim/Aes.v applied directly (RFC 5652 padding, SP 800-38A
@@ -65,12 +69,12 @@ Definition run (op : string) (args : list string) : string :=
       match parse_algo md, expand k, expand i, expand d with
       | Some a, Some key, Some iv, Some data =>
           match op with
-          | "aes.encrypt" => out3 (show_out (encrypt a key iv data)) (spec_encrypt a key iv data) (known_class true a key iv data)
-          | "aes.decrypt" => out3 (show_out (decrypt a key iv data)) (spec_decrypt a key iv data) (known_class false a key iv data)
+          | "aes.encrypt" | "aes.encrypt_impl" => out3 (show_out (encrypt a key iv data)) (spec_encrypt a key iv data) (known_class true a key iv data)
+          | "aes.decrypt" | "aes.decrypt_impl" => out3 (show_out (decrypt a key iv data)) (spec_decrypt a key iv data) (known_class false a key iv data)
           | "aes.roundtrip" => out3 (impl_roundtrip a key iv data) (spec_roundtrip a key iv data) (known_class true a key iv data)
           | _ => "BADOP"
           end
       | _, _, _, _ => "BADARG"
       end
-  | _ => match op with "aes.encrypt" | "aes.decrypt" | "aes.roundtrip" => "BADARG" | _ => "BADOP" end
+  | _ => match op with "aes.encrypt" | "aes.decrypt" | "aes.roundtrip" | "aes.encrypt_impl" | "aes.decrypt_impl" => "BADARG" | _ => "BADOP" end
   end.
